@@ -18,7 +18,7 @@ SHIFTS = [0.0, 0.0, 0.0, 0.5, 0.25, 0.05]
 
 
 def rand_value(rng, g: GridEmb):
-    k = rng.choice([-3, -2, -1, 0, 1, 2, 3, 5, 8, 17, 29, 33, -17, 100, -50])
+    k = rng.choice([-3, -2, -1, 0, 1, 2, 3, 5, 8, 17, 29, 33, -17, 100, -50, 43, 81, 86, 91, 162]) if rng.random() < 0.6 else rng.randrange(-200, 200)
     kind = rng.randrange(7)
     if kind == 0:
         return round(k * g.w + g.s, 10)                    # decimal literal such as 1.7
@@ -71,13 +71,13 @@ def alpha(h, grids):
     return {"axes": axes, "cont": cont, "missed": int(missed)}, None
 
 
-def record_programs(seed, n_programs, max_ops):
+def record_programs(seed, n_programs, max_ops, only_construct=False):
     import physt
     rng = random.Random(seed)
     events, meta = [], []
     direct = []
     for p in range(n_programs):
-        if rng.random() < 0.4:
+        if only_construct or rng.random() < 0.4:
             # data-derived, possibly non-adaptive binnings: fixed_width / pretty / integer must cover their data
             method = rng.choice(["fixed_width", "pretty", "integer"])
             g0 = GridEmb(rng.choice([1.0, 0.5, 0.3]) if method == "integer" else rng.choice(WIDTHS), 0.0)
@@ -141,11 +141,11 @@ def record_programs(seed, n_programs, max_ops):
     return events, meta, direct
 
 
-def run_part(ctx, tier):
+def run_part(ctx, tier, only_construct=False):
     n_prog = 400 if tier == "quick" else 6000
-    events, meta, direct = record_programs(ctx.seed + 4, n_prog, 5 if tier == "quick" else 7)
+    events, meta, direct = record_programs(ctx.seed + 4, n_prog, 5 if tier == "quick" else 7, only_construct=only_construct)
     for dv in direct:
-        ctx.add_violation({"property": "C04", "spec": "TraceAdaptive", "action": dv["call"]["call"], "tag": "alpha/edge-off-grid",
+        ctx.add_violation({"property": ctx.prop, "spec": "TraceAdaptive", "action": dv["call"]["call"], "tag": "alpha/edge-off-grid",
                            "fields": ["bins"], "detail": dv["error"], "call": dv["call"]})
     sc = scratch_dir("C04T")
     path = os.path.join(sc, "trace.ndjson")
@@ -173,7 +173,7 @@ def run_part(ctx, tier):
         raise MachineryError("TraceAdaptive: TLC reports an invariant violation on a recorded trace:\n" + res.stdout[-1500:])
     if matched < len(events):
         bad = events[matched]
-        ctx.add_violation({"property": "C04", "spec": "TraceAdaptive", "action": bad["op"], "tag": f"T/{bad['op']}/rejected",
+        ctx.add_violation({"property": ctx.prop, "spec": "TraceAdaptive", "action": bad["op"], "tag": f"T/{bad['op']}/rejected",
                            "fields": ["trace"], "detail": {"rejected_event": bad, "previous_state": events[matched - 1] if matched else None},
                            "call": meta[matched]})
     shutil.rmtree(sc, ignore_errors=True)
